@@ -14,6 +14,9 @@ import os
 import sys
 
 os.environ.setdefault("CELPY_VERIF", "1")
+from . import fastarena  # noqa: E402
+
+fastarena.install()
 sys.path.insert(0, "/repo/src")
 
 import logging  # noqa: E402
